@@ -44,6 +44,8 @@ type Obs struct {
 	Leak      string      // bubble ended with blocked goroutines / deadlock message
 	Fatal     string      // harness-level failure (panic outside RoundTrip)
 	LogBytes  int         // bytes written to the debug logger
+	Trace     []string    // controlled mode: the operations in the order they were let through
+	Alts      []int       // controlled mode: number of pending operations at each decision
 	EndNs     int64
 }
 
@@ -162,6 +164,45 @@ type World struct {
 	faults  map[int]Fault
 	logbuf  *countWriter
 	exByKey map[any]int
+
+	// controlled scheduling (C16 A)
+	controlled atomic.Bool
+	pending    []*pendingOp
+	gidTask    map[uint64]string
+}
+
+type pendingOp struct {
+	task  string
+	label string
+	ch    chan struct{}
+}
+
+// yield parks the calling goroutine until the controller lets this operation proceed.
+func (w *World) yield(task, label string) {
+	if !w.controlled.Load() {
+		return
+	}
+	p := &pendingOp{task: task, label: label, ch: make(chan struct{})}
+	w.mu.Lock()
+	w.pending = append(w.pending, p)
+	w.mu.Unlock()
+	<-p.ch
+}
+
+// taskOf names the task a goroutine belongs to: a client thread, or the background work of an
+// exchange (registered at its first origin call, which carries the exchange id).
+func (w *World) taskOf(g uint64, exIdx int) string {
+	w.mu.Lock()
+	defer w.mu.Unlock()
+	if t, ok := w.gidTask[g]; ok {
+		return t
+	}
+	t := "bg?"
+	if exIdx >= 0 {
+		t = fmt.Sprintf("bg%03d", exIdx)
+	}
+	w.gidTask[g] = t
+	return t
 }
 
 type countWriter struct {
@@ -232,6 +273,9 @@ func mutate(val []byte, f Fault) []byte {
 
 func (c *recConn) Get(key string) ([]byte, error) {
 	w := c.w
+	if w.controlled.Load() {
+		w.yield(w.taskOf(gid(), -1), "get "+key)
+	}
 	f, has, _ := c.fault()
 	op := &StoreOp{Seq: w.seq.Add(1), Ex: int(w.curEx.Load()), NowNs: w.now(), Op: "get", Key: key}
 	if has {
@@ -265,6 +309,9 @@ func (c *recConn) Get(key string) ([]byte, error) {
 
 func (c *recConn) Set(key string, value []byte) error {
 	w := c.w
+	if w.controlled.Load() {
+		w.yield(w.taskOf(gid(), -1), "set "+key)
+	}
 	f, has, _ := c.fault()
 	op := &StoreOp{Seq: w.seq.Add(1), Ex: int(w.curEx.Load()), NowNs: w.now(), Op: "set", Key: key, Val: append([]byte(nil), value...)}
 	if has {
@@ -299,6 +346,9 @@ func (c *recConn) Set(key string, value []byte) error {
 
 func (c *recConn) Delete(key string) error {
 	w := c.w
+	if w.controlled.Load() {
+		w.yield(w.taskOf(gid(), -1), "delete "+key)
+	}
 	f, has, _ := c.fault()
 	op := &StoreOp{Seq: w.seq.Add(1), Ex: int(w.curEx.Load()), NowNs: w.now(), Op: "delete", Key: key}
 	if has {
@@ -484,6 +534,9 @@ func (o *origin) RoundTrip(req *http.Request) (*http.Response, error) {
 		w.mu.Unlock()
 	}
 	cond := req.Header.Get("If-None-Match") != "" || req.Header.Get("If-Modified-Since") != ""
+	if w.controlled.Load() {
+		w.yield(w.taskOf(g, exIdx), "origin "+req.Method+" "+req.URL.Path)
+	}
 	var ex *Exchange
 	w.mu.Lock()
 	if exIdx >= 0 && exIdx < len(w.obs.Exchanges) {
@@ -898,11 +951,24 @@ func (w *World) run() {
 	if len(sc.Threads) > 0 {
 		var wg sync.WaitGroup
 		var cmu sync.Mutex
+		if sc.Controlled {
+			w.gidTask = map[uint64]string{}
+			w.controlled.Store(true)
+		}
 		for ti, th := range sc.Threads {
 			wg.Add(1)
 			go func(ti int, th []*Req) {
 				defer wg.Done()
-				for _, rq := range th {
+				if sc.Controlled {
+					w.mu.Lock()
+					w.gidTask[gid()] = fmt.Sprintf("t%02d", ti)
+					w.mu.Unlock()
+				}
+				for ri, rq := range th {
+					if sc.Controlled {
+						// exchange numbers are handed out in scheduled order
+						w.yield(fmt.Sprintf("t%02d", ti), fmt.Sprintf("begin request %d", ri))
+					}
 					if c := w.doReqMode(rt, len(sc.Steps), rq, true, ti); c != nil {
 						cmu.Lock()
 						cancels = append(cancels, c)
@@ -910,6 +976,9 @@ func (w *World) run() {
 					}
 				}
 			}(ti, th)
+		}
+		if sc.Controlled {
+			w.controlLoop(&wg)
 		}
 		wg.Wait()
 	}
@@ -1257,4 +1326,70 @@ func (w *World) corruptFile(c *Corrupt) {
 // BodyFails reports whether reading the reply body to the end yields the injected error.
 func (c *Call) BodyFails() bool {
 	return c.FailAt > 0 && c.Body != nil && c.FailAt-1 <= len(c.Body)
+}
+
+// controlLoop is the scheduler of the controlled concurrent phase: whenever every goroutine
+// of the bubble is parked it lets exactly one pending operation proceed, chosen by the
+// scenario's schedule among the pending operations in canonical (task, label) order.
+func (w *World) controlLoop(wg *sync.WaitGroup) {
+	done := make(chan struct{})
+	go func() { wg.Wait(); close(done) }()
+	idle := 0
+	step := 0
+	for {
+		synctest.Wait()
+		w.mu.Lock()
+		pend := w.pending
+		w.mu.Unlock()
+		if len(pend) == 0 {
+			finished := false
+			select {
+			case <-done:
+				finished = true
+			default:
+			}
+			if finished && idle >= 12 {
+				break
+			}
+			// nothing to schedule: tasks wait for virtual time (latency, timeouts)
+			idle++
+			if idle > 40 {
+				break
+			}
+			time.Sleep(time.Second)
+			continue
+		}
+		idle = 0
+		sort.SliceStable(pend, func(i, j int) bool {
+			if pend[i].task != pend[j].task {
+				return pend[i].task < pend[j].task
+			}
+			return pend[i].label < pend[j].label
+		})
+		choice := 0
+		if step < len(w.sc.Sched) {
+			choice = ((w.sc.Sched[step] % len(pend)) + len(pend)) % len(pend)
+		}
+		step++
+		p := pend[choice]
+		w.obs.Alts = append(w.obs.Alts, len(pend))
+		w.obs.Trace = append(w.obs.Trace, p.task+": "+p.label)
+		w.mu.Lock()
+		for i, q := range w.pending {
+			if q == p {
+				w.pending = append(w.pending[:i:i], w.pending[i+1:]...)
+				break
+			}
+		}
+		w.mu.Unlock()
+		close(p.ch)
+	}
+	// release anything still parked and let the rest of the scenario run freely
+	w.controlled.Store(false)
+	w.mu.Lock()
+	for _, p := range w.pending {
+		close(p.ch)
+	}
+	w.pending = nil
+	w.mu.Unlock()
 }
